@@ -154,6 +154,9 @@ mod push;
 mod registry;
 mod value;
 mod vec;
+#[cfg(feature = "verif")]
+#[doc(hidden)]
+pub mod verif;
 
 // Public for generated code.
 #[doc(hidden)]
